@@ -7,7 +7,9 @@ import Generated.Script
 /-!
 # C08 — the script engine gives Bitcoin Core's verdict
 
-Property theorems only.  `Btc.Script.Core.*` is the transcription of Bitcoin Core's interpreter (the
+Property theorems only.  NO theorem here is about `Model/C08/Verify.lean` (VerifyScript, P2SH, witness v0, taproot
+dispatch, CLEANSTACK, malleation rules): that shell is tied by the `core.verify_input`, `core.script_tests` and
+`core.tx_vectors` streams only.  `Btc.Script.Core.*` is the transcription of Bitcoin Core's interpreter (the
 specification); `Btc.Script.*` are the hand models of btclib's code (tied by correspondence);
 `Gen.Script.*` is regenerated from btclib's source on every run.
 -/
@@ -63,9 +65,15 @@ theorem minimal_encoding_is_Cores (b : Bytes) :
 
 /-- `_to_num(element, flags, max_size)` is `CScriptNum(vch, fRequireMinimal, nMaxNumSize)`: it refuses exactly
     the over-long and (under MINIMALDATA) the non-minimal operands, and reads the same value otherwise. -/
-theorem to_num_is_CScriptNum (b : Bytes) (minimal : Bool) (maxSize : Nat) :
+theorem to_num_is_CScriptNum (b : Bytes) (minimal : Bool) (maxSize : Nat) (hmax : maxSize ≤ 8) :
     (toNum b minimal maxSize).toOption = (Core.scriptNum b minimal maxSize).toOption :=
-  toNum_eq_scriptNum b minimal maxSize
+  toNum_eq_scriptNum b minimal maxSize hmax
+
+/-- past 8 bytes the two part ways (the interpreter never asks for more than 5): `_to_num` re-encodes through
+    `encode_num`, which refuses what is not an int64; `CScriptNum` does not look. -/
+theorem to_num_differs_at_nine_bytes :
+    toNum [0, 0, 0, 0, 0, 0, 0, 0x80, 0] true 9 = .error .value ∧
+    Core.scriptNum [0, 0, 0, 0, 0, 0, 0, 0x80, 0] true 9 = .ok (2 ^ 63) := by decide
 
 example : toNum [0x00, 0x80] true 4 = .error .value ∧ toNum [0xff, 0x80] true 4 = .ok (-255) := by decide
 example : encodeNum (-255) = .ok [0xff, 0x80] := by decide
@@ -101,17 +109,26 @@ theorem flag_names_are_Cores :
     (Core.FLAG_NAMES.map (·.1)).all (fun n => (Gen.Script.FLAGS.lookup n).isSome) = true ∧
     Gen.Script.FLAGS.length = 21 := by decide
 
-/-- the op code bytes the transcription switches on carry the names btclib's table gives them -/
-theorem opcode_numbering :
-    [(Core.OP_IF, "OP_IF"), (Core.OP_NOTIF, "OP_NOTIF"), (Core.OP_ELSE, "OP_ELSE"), (Core.OP_ENDIF, "OP_ENDIF"),
-     (Core.OP_CODESEPARATOR, "OP_CODESEPARATOR"), (Core.OP_CHECKSIG, "OP_CHECKSIG"),
-     (Core.OP_CHECKSIGVERIFY, "OP_CHECKSIGVERIFY"), (Core.OP_CHECKMULTISIG, "OP_CHECKMULTISIG"),
-     (Core.OP_CHECKMULTISIGVERIFY, "OP_CHECKMULTISIGVERIFY"), (0x69, "OP_VERIFY"), (0x6a, "OP_RETURN"),
-     (0x76, "OP_DUP"), (0x87, "OP_EQUAL"), (0x88, "OP_EQUALVERIFY"), (0x93, "OP_ADD"), (0xa5, "OP_WITHIN"),
-     (0xa9, "OP_HASH160"), (0xb1, "OP_CHECKLOCKTIMEVERIFY"), (0xb2, "OP_CHECKSEQUENCEVERIFY"), (0x4f, "OP_1NEGATE"),
-     (0x60, "OP_16"), (0x7a, "OP_ROLL"), (0x82, "OP_SIZE"), (0x9d, "OP_NUMEQUALVERIFY")].all
-      (fun p => Gen.Script.OP_NAMES.lookup p.1 == some p.2) = true ∧
-    Gen.Script.TAPSCRIPT_OP_NAMES.lookup Core.OP_CHECKSIGADD = some "OP_CHECKSIGADD" := by decide
+/-- btclib's whole op-code table (`script.OP_CODE_NAME_FROM_INT`, regenerated) IS `enum opcodetype` of script.h: every
+    byte, every name, in order — swapping two names anywhere breaks this. -/
+theorem opcode_table_is_Cores : Gen.Script.OP_NAMES = Core.OPCODES := by decide
+
+/-- every named op code above OP_PUSHDATA4 is accounted for by the transcription: it has a case of the switch, or it is
+    disabled, or it is one of the six that fall to `default: BAD_OPCODE`; and those six do (in an executed branch). -/
+theorem switch_covers_the_table :
+    (Core.OPCODES.filter (fun p => p.1 > 0x4e)).all
+      (fun p => Core.SWITCH_CASES.contains p.1 || Core.DISABLED.contains p.1 || Core.NO_CASE.contains p.1) = true ∧
+    (∀ (cx : Core.Ctx) (pos opos : Nat) (m : Core.Machine), ∀ c ∈ [0x50, 0x62, 0x89, 0x8a],
+        Core.execPlain cx pos opos m c = .error .BAD_OPCODE) ∧
+    (∀ (cx : Core.Ctx) (st : Core.State) (f : Bool), ∀ c ∈ [0x65, 0x66],
+        Core.execConditional cx st c f = .error .BAD_OPCODE) := by
+  refine ⟨by decide, ?_, ?_⟩
+  · intro cx pos opos m c hc
+    simp only [List.mem_cons, List.mem_nil_iff, or_false] at hc
+    rcases hc with rfl | rfl | rfl | rfl <;> rfl
+  · intro cx st f c hc
+    simp only [List.mem_cons, List.mem_nil_iff, or_false] at hc
+    rcases hc with rfl | rfl <;> rfl
 
 /-! ## T2 — parsing -/
 
@@ -128,6 +145,14 @@ theorem parse_stops_where_GetOp_fails (s : Bytes) :
   have h := parseOps_tail s.length s (Nat.le_refl _)
   exact ⟨h, getOp_none _ h⟩
 
+/-- btclib's reader: `op_code_spans` (offset arithmetic over `read_op_code`, Python slices) yields exactly the spans of
+    Core's `GetOp` walk — same op codes, same boundaries, and it stops at the same byte. -/
+theorem op_code_spans_is_GetOp_walk (s : Bytes) :
+    opCodeSpans s = spansOf (parse s).1 0 ∧
+    (∀ start, readOpCode s start = (getOp (s.drop start)).map fun p => (p.1.code, start + p.1.raw.length)) :=
+  ⟨opCodeSpans_eq s, readOpCode_eq_getOp s⟩
+
+example : opCodeSpans [0x51, 0x4c, 0x02, 0xaa, 0xbb, 0x4d, 0x05] = [(0x51, 0, 1), (0x4c, 1, 5)] := by decide
 example : (parse [0x51, 0x4c, 0x02, 0xaa, 0xbb, 0x4d, 0x05]).1.map (·.code) = [0x51, 0x4c] := by decide
 example : (parse [0x51, 0x4c, 0x02, 0xaa, 0xbb, 0x4d, 0x05]).2 = [0x4d, 0x05] := by decide
 
@@ -211,7 +236,7 @@ theorem btclib_dispatch_is_the_name_table :
     ((List.range 256).filter (fun t => !(0 < t && t ≤ 78))).all
       (fun t => Btclib.kindFromTables t == Btclib.kind t) = true := by decide +kernel
 
-/-- T3, op level, `_partial`: for each covered OPERATIONS entry —
+/-- T3, op level, `_partial`: for each of the 46 covered OPERATIONS entries —
     stack: DUP 2DUP DROP 2DROP SWAP TOALTSTACK FROMALTSTACK NIP OVER ROT TUCK 3DUP 2OVER 2ROT 2SWAP RETURN, hashes RIPEMD160 SHA1
     SHA256 HASH160 HASH256 (any hash functions); arithmetic: 1ADD 1SUB NEGATE ABS NOT 0NOTEQUAL ADD SUB BOOLAND BOOLOR
     NUMEQUAL NUMNOTEQUAL LESSTHAN GREATERTHAN LESSTHANOREQUAL GREATERTHANOREQUAL MIN MAX; VERIFY IFDUP 1NEGATE DEPTH SIZE
@@ -232,6 +257,27 @@ theorem verify_expansions_refine_Core (cx : Btclib.Ctx) (sc : Bytes) (stack alt 
     ((Refine.btRes (Btclib.operation cx 0x9c stack alt)).bind fun p => Refine.btRes (Btclib.operation cx 0x69 p.1 p.2))
       = Refine.coreRes (Core.execStackOp (Refine.coreCx cx sc) stack alt 0x9d) :=
   Refine.expansion_refines cx sc stack alt
+
+/-- … with the bookkeeping that makes the trick risky: in an executing branch OP_EQUALVERIFY takes three passes of the
+    loop (expansion, OP_EQUAL, OP_VERIFY); `script_index` and `op_code_num` are wound back by two and counted up again,
+    and the three passes together count ONE op code (refusing iff that count passes 201, as Core's `++nOpCount`),
+    advance the index by ONE, consume exactly the op code's byte, and leave Core's stacks (previous theorem). -/
+theorem equalverify_expansion_bookkeeping (cx : Btclib.Ctx) (sc : Bytes) (stack alt : List Bytes) (cond : List Bool)
+    (cnt idx : Int) (rest : Bytes) (hexec : cond.all id = true) (hsize : stack.length + alt.length ≤ 1000) :
+    Refine.iter3 cx { stack := stack, alt := alt, cond := cond, opCodeNum := cnt, scriptIndex := idx,
+                      s := UInt8.ofNat 0x88 :: rest } =
+      (if cnt + 1 > 201 then none
+       else match Refine.coreRes (Core.execStackOp (Refine.coreCx cx sc) stack alt 0x88) with
+         | some (s, a) => some (.more { stack := s, alt := a, cond := cond, opCodeNum := cnt + 1, scriptIndex := idx + 1,
+                                        s := rest })
+         | none => none) := by
+  rw [Refine.equalverify_windback cx stack alt cond cnt idx rest hexec hsize,
+    (Refine.expansion_refines cx sc stack alt).1]
+  split
+  · rfl
+  · cases Refine.coreRes (Core.execStackOp (Refine.coreCx cx sc) stack alt 0x88) with
+    | none => rfl
+    | some p => rfl
 
 example : (0x93 : Nat) ∈ Refine.covered ∧ (0x76 : Nat) ∈ Refine.covered := by decide
 
